@@ -130,7 +130,7 @@ pub fn render(v: &Val, ctx: &mut Ctx) -> TokenStream {
             let holes: BTreeMap<String, Val> = t.holes.iter().cloned().collect();
             subst(ts, &holes, ctx)
         }
-        Val::List(items) => {
+        Val::List(items) | Val::Array(items) => {
             let mut ts = TokenStream::new();
             for it in items { ts.extend(render(it, ctx)); }
             ts
@@ -221,7 +221,7 @@ pub fn render(v: &Val, ctx: &mut Ctx) -> TokenStream {
 /// expand an iterable value into a sequence of rendered elements
 fn expand_seq(v: &Val, ctx: &mut Ctx) -> Vec<TokenStream> {
     match v {
-        Val::List(items) => {
+        Val::List(items) | Val::Array(items) => {
             let mut out = Vec::new();
             for it in items {
                 match it {
